@@ -1710,3 +1710,44 @@ pub fn load_corpus() -> Corpus {
   }
   c
 }
+
+// ------------------------------------------------------------------------------------------------
+// adversarial constants: work or memory that scales with the *numeric value* of a constant in the schema
+// (an occurrence bound, a .size, a range end, a tag number, a repetition inside a regular expression or
+// ABNF controller) instead of with the size of the input
+
+const HUGE: &[&str] = &["1000000", "4000000000", "4000000000000", "9223372036854775807", "9223372036854775808", "18446744073709551615"];
+
+/// (schema, JSON document) pairs in which a huge constant meets a construct that might iterate over it.
+pub fn huge_const_case(r: &mut Rng) -> (String, Doc) {
+  let n = *r.pick(HUGE);
+  let m = *r.pick(HUGE);
+  let zero_width = *r.pick(&["()", "(? int)", "(* tstr)", "g0", "(? int, ? tstr)", "(? (int, int))"]);
+  let arr = |v: Vec<Doc>| Doc::Array(v);
+  let small_arrays: Vec<Doc> = vec![arr(vec![]), arr(vec![Doc::Int(1)]), arr(vec![Doc::Text("a".into())]), arr(vec![Doc::Int(1), Doc::Text("a".into()), Doc::Int(2)])];
+  let doc = r.pick(&small_arrays).clone();
+  // the ABNF variant is rare: today every instance of it kills the process (see known_findings.json)
+  match r.weighted(&[8, 8, 8, 8, 8, 8, 8, 8, 8, 8, 8, 1]) {
+    0 => (format!("root = [ {}* {} ]\ng0 = ()\n", n, zero_width), doc),
+    1 => (format!("root = [ {}*{} {}, tstr ]\ng0 = (? int)\n", n, m, zero_width), doc),
+    2 => (format!("root = [ {}*{} int ]\n", n, m), doc),
+    3 => (format!("root = [ * ({}* {}) ]\ng0 = ()\n", n, zero_width), doc),
+    4 => (format!("root = {{ {}* {} }}\ng0 = ()\n", n, zero_width.replace("int", "a: int").replace("tstr", "b: tstr")), Doc::Map(vec![(Doc::Text("a".into()), Doc::Int(1))])),
+    5 => (format!("root = {{ {}*{} tstr => int }}\n", n, m), Doc::Map(vec![(Doc::Text("a".into()), Doc::Int(1))])),
+    6 => (format!("root = bstr .size {} / tstr .size {} / uint .size {}\n", n, m, r.pick(&["8", "9", "64", n])), r.pick(&[Doc::Text("abc".into()), Doc::Int(5), Doc::Bytes(vec![1, 2, 3])]).clone()),
+    7 => (format!("root = uint .bits {} / bstr .bits {}\n", n, m), r.pick(&[Doc::Int(5), Doc::Bytes(vec![1, 2, 3])]).clone()),
+    8 => (format!("root = 0..{} / -{}..0 / 0.5..{}.0\n", n, m, n), r.pick(&[Doc::Int(5), Doc::Int(-5), Doc::Float(1.5)]).clone()),
+    9 => (format!("root = #6.{}(int) / #6.{}(tstr)\n", n, m), r.pick(&[Doc::Int(5), Doc::Tag(1, Box::new(Doc::Int(5)))]).clone()),
+    10 => {
+      let k = *r.pick(&["1000", "100000", "1000000000"]);
+      (
+        format!("root = tstr .regexp \"(a{{{}}}){{{}}}\" / tstr .pcre \"(a+)+$\" / tstr .regexp \"a{{{},}}\"\n", k, k, k),
+        Doc::Text(format!("{}b", "a".repeat(*r.pick(&[3usize, 30, 60])))),
+      )
+    }
+    _ => {
+      let k = *r.pick(&["1000", "100000", "4000000000"]);
+      (format!("root = tstr .abnf \"r\\nr = {}*{}\\\"a\\\" / {}(*\\\"b\\\")\\n\"\n", k, k, k), Doc::Text("aab".into()))
+    }
+  }
+}
